@@ -56,7 +56,7 @@ CLAIMED.update({
             "components or user total, less ITC, incentives, grants plus fees; component overrides used exactly; "
             "Cwell = per-well costs x wells (+laterals, 1.05); Coam = parts or user total + redrilling + fees - relief; "
             "chiller not double counted; per-well cost helper proved for all 17 correlations. Quick tier: 19 "
-            "representative end-use x plant configurations, thorough tier: all 72.",
+            "representative end-use x plant configurations, thorough tier: all 65 the reader accepts (district heating with a non-heat end-use makes Model.read_parameters raise).",
             TRUSTED + "Snapshots of the real classes after Model.read_parameters (T5); surface-plant and pump cost "
             "correlations are 'the components' and are not checked against anything.", "DESIGN.md section 4 C03"),
 })
@@ -181,6 +181,22 @@ CLAIMED.update({
             "mechanically extracted from the real loop body, on 36,942 enumerated decorated lines - labelled bounded in "
             "the evidence and not counted. Downstream order-independence of other containers is determinism (C08).",
             "DESIGN.md section 4 C12"),
+    "C06": ("other", "BOUNDED stand-in (run-time contract on the real ReadParameter / ConvertUnitsBack / ConvertOutputUnits, "
+            "complete over the unit catalogue, sampled in the value) + ground obligations on the finite catalogue; no "
+            "deductive proof - the unit code is string- and pint-driven and outside the VC generator's reach",
+            "Bounded only, never counted as proved. For every distinct float input declaration of every module class x "
+            "every unit the catalogue lists for its kind x 2 in-range values, the real ReadParameter stores the value "
+            "the supplied quantity has in the default unit, and the report's unit pass leaves (value, unit) denoting the "
+            "supplied quantity; for every declared output parameter x catalogue unit x (scalar, series) the real "
+            "ConvertOutputUnits changes value and label by the exact factor. Ground (complete, finite): LookupUnits "
+            "finds every unit of every catalogue in use; the registry defines them. Three genuine defects found and "
+            "fixed (inverse currency prefix factor, UndefinedUnitError for every compound unit, Well Separation held in "
+            "inches); the echo defect the property text itself mentions is recorded per unit as known findings.",
+            "Not decided: all values (2 samples per pair; conversions are affine so 2 points pin them only if the code is "
+            "affine - not shown), unit spellings outside the catalogue, the magnitude heuristics (depth x1000, gradient "
+            "> 1, diameter > 2), dispatch of the 'Units:' directive, end-to-end identity of computed series (needs "
+            "determinism, C08). Trusted: pint as the oracle for conversion factors.",
+            "DESIGN.md section 4 C06"),
 })
 
 NOT_APPLICABLE = {
